@@ -3,6 +3,7 @@ CONSTANTS
   ScrubTxLen = TRUE
   ResetRawSA = TRUE
   ResetSlot = TRUE
+  ClearHdr = TRUE
   SilentRK <- TSilent
 SPECIFICATION TraceSpec
 INVARIANTS ReplyIsOwn SilentStaysSilent AtMostOneSend OwnershipWalk LeaseBound AllHome
